@@ -251,12 +251,7 @@ func (fv *FuncVerifier) evalConversion(st *State, e *ast.CallExpr, to types.Type
 	case isString(to):
 		if sl, ok := from.Underlying().(*types.Slice); ok && isInteger(sl.Elem()) {
 			// string(bytes): a function of the content
-			fv.eng.needStrOfBytes = true
-			h := sc.sliceHeap(sl.Elem())
-			s := fv.fresh("str", "Str")
-			q := fv.qname()
-			fv.assume(st, "(and (= (gs.len "+s+") "+sLen(x.T)+") (forall (("+q+" Int)) (=> (and (<= 0 "+q+") (< "+q+" "+sLen(x.T)+")) (= (gs.at "+s+" "+q+") (select (select "+fv.heapOf(st, h)+" "+sRef(x.T)+") (+ "+sOff(x.T)+" "+q+"))))))")
-			return Val{T: s, Ty: to}
+			return Val{T: fv.strOfBytes(st, x.T, sl.Elem()), Ty: to}
 		}
 		if isInteger(from) {
 			return fv.havocVal(st, "runestr", to)
@@ -287,6 +282,22 @@ func (fv *FuncVerifier) evalConversion(st *State, e *ast.CallExpr, to types.Type
 	}
 	fv.unsupported("conversion " + from.String() + " -> " + to.String())
 	return fv.havocVal(st, "conv", to)
+}
+
+// strOfBytes models string(b) for a byte slice term: a string value whose length and content are those of b.
+func (fv *FuncVerifier) strOfBytes(st *State, xT string, elem types.Type) string {
+	fv.eng.needStrOfBytes = true
+	h := fv.eng.sc.sliceHeap(elem)
+	// a function of the row, offset and length: converting the same bytes twice gives the same string
+	s := "(gs.ofbytes (select " + fv.heapOf(st, h) + " " + sRef(xT) + ") " + sOff(xT) + " " + sLen(xT) + ")"
+	if len(s) > 160 {
+		n := fv.fresh("str", "Str")
+		fv.assume(st, "(= "+n+" "+s+")")
+		s = n
+	}
+	q := fv.qname()
+	fv.assume(st, "(and (= (gs.len "+s+") "+sLen(xT)+") (forall (("+q+" Int)) (=> (and (<= 0 "+q+") (< "+q+" "+sLen(xT)+")) (= (gs.at "+s+" "+q+") (select (select "+fv.heapOf(st, h)+" "+sRef(xT)+") (+ "+sOff(xT)+" "+q+"))))))")
+	return s
 }
 
 func (fv *FuncVerifier) qname() string {
